@@ -296,8 +296,21 @@ def judge_cut(acc, base, obs, answers, writer=(None, None)):
     for ses, w in zip(obs['sessions'][:2], writer):
         if w is None:
             continue
-        model_recs, impl = w
+        model_recs, impl, rendered, real_text = w
         impl_recs = list(impl['recs'])
+        acc.count('renderer-compared')
+        if not (rendered['rend_ok'] and rendered['dps_ok'] and rendered['cmd_ok']):
+            acc.disagree('c09.render: the side conditions of the byte-prefix theorem do not hold for this session',
+                         inp, {'cmd': real_text.split('\n')[0]},
+                         {k: rendered[k] for k in ('rend_ok', 'dps_ok', 'cmd_ok')},
+                         ['RB.Loader.c09_load_after_any_byte_prefix_rendered'])
+        if rendered['text'] != real_text:
+            n = min(len(rendered['text']), len(real_text))
+            at = next((x for x in range(n) if rendered['text'][x] != real_text[x]), n)
+            acc.disagree('c09.render: bytes appended by session %s' % ses['name'], inp,
+                         {'at': at, 'text': real_text[max(0, at - 40):at + 60]},
+                         {'at': at, 'text': rendered['text'][max(0, at - 40):at + 60]},
+                         ['RB.Loader.c09_load_after_any_byte_prefix_rendered'])
         if ses['before'] and not ses['before'].endswith('\n') and impl_recs[:1] == ['session']:
             impl_recs = impl_recs[1:]     # the '#!' line is glued to the torn tail
         acc.count('writer-compared')
@@ -348,7 +361,7 @@ def judge_cut(acc, base, obs, answers, writer=(None, None)):
                 acc.count('invocation-incomplete')
 
 
-def process(params, wd, cuts, model_fn):
+def process(params, wd, cuts, model_fn, timing=None):
     """evaluate the given cuts (None = decide here) of one scenario; returns an Acc"""
     acc = dd.Acc()
     base = Base(wd, params)
@@ -375,7 +388,9 @@ def process(params, wd, cuts, model_fn):
     wans = batched(model_fn, wops)
     writer = {}
     for n, (i, j) in enumerate(wmeta):
-        writer[(i, j)] = (wans[2 * n], wans[2 * n + 1])
+        before = obs[i]['sessions'][j]['before']
+        after = obs[i]['sessions'][j + 1]['before']
+        writer[(i, j)] = (wans[3 * n], wans[3 * n + 1], wans[3 * n + 2], after[len(before):])
     for i, o in enumerate(obs):
         judge_cut(acc, base, o, answers[3 * i:3 * i + 3], [writer.get((i, 0)), writer.get((i, 1))])
     return acc, base
@@ -409,7 +424,17 @@ def writer_ops(base, o, ses, ans, after):
            'glued': bool(before) and not before.endswith('\n'), 'empty': before == '', 'dps': dps}
     op2 = model_op(base, after[len(before):])
     op2['want_recs'] = True
-    return [op1, op2]
+    # text level: the bytes the model's renderer writes for the same session
+    app = after[len(before):]
+    alines = app.split('\n')
+    bp, rp = dd.payload_tables(dd.parse_file(after), lambda o: names.index(o['name']) if o['name'] in names else 99,
+                               lambda o: names.index(o['cmdline'].split()[-1]) if o['cmdline'].split()[-1] in names else 99)
+    op3 = {'op': 'c09.render', 'benches': ans['benches'], 'runs': ans['runs'], 'empty': before == '',
+           'cmd': alines[0][2:], 'hdr': dd.HDR, 'comments': alines[1:4], 'dps': dps,
+           'cols': [[i, [b, 'E', 'S', '', '1', '', '', '', '']] for i, b in enumerate(names)],
+           'units': [['total', 'ms']] + [['c%d' % c, 'kb'] for c in range(3)],
+           'bench_json': [[k, pj] for (pj, k) in bp], 'run_json': [[k, bid, pj] for (pj, k, bid) in rp]}
+    return [op1, op2, op3]
 
 
 def _worker(args):
